@@ -163,7 +163,7 @@ class UnitaryMatrix(Unitary, StateVectorMap, NDArrayOperatorsMixin):
 
     def is_special(self) -> bool:
         """Return true if this unitary is special."""
-        return 1 - np.abs(np.linalg.det(self)) < 1e-8
+        return bool(np.abs(1 - np.linalg.det(self)) < 1e-8)
 
     def __len__(self) -> int:
         """The dimension of the square unitary matrix."""
